@@ -239,7 +239,7 @@ def evaluate_parallel_links(case):
 
 
 def evaluate(case):
-    if case.get("tree") in ("s:two_tmpfs", "s:cross_device"):
+    if case.get("tree") in ("s:two_tmpfs", "s:cross_device", "s:bind_mount", "s:bind_mount_plain", "s:bind_mount_copy"):
         from . import c09
         if not c09.can_mount():
             return {"violations": [], "nontrivial": None, "outcome": "skipped_no_mount", "evaluations": 0}
